@@ -176,7 +176,22 @@ func GenC01(seed uint64) *Scenario {
 		}
 		s.History = append(s.History, h)
 	}
+	fixHead(s)
 	return s
+}
+
+// fixHead makes sure the chain is long enough for every request of the history (tier2 jobs
+// read whole segments, the linear phase needs the stop block itself).
+func fixHead(s *Scenario) {
+	for _, h := range s.History {
+		need := roundUp(h.Req.Stop, h.Req.SegSize) + h.Req.SegSize + 3
+		if need > s.Head {
+			s.Head = need
+		}
+		if h.Req.Final > s.Head {
+			s.Head = h.Req.Final + 3
+		}
+	}
 }
 
 type c01Checker struct{ prop string }
